@@ -254,7 +254,7 @@ def matrix_exprs(rng, quick):
                 out.append("%s %s %s" % (a, op, b))
     for s in shapes:
         for m in MATS[s]:
-            out += ["transpose(%s)" % m, "transpose(transpose(%s))" % m, "-%s" % m, "%s * 2" % m, "(1+i) * %s" % m, "%s / 4" % m, "%s / 0" % m,
+            out += ["transpose(%s)" % m, "transpose(transpose(%s))" % m, "-%s" % m, "%s * 2" % m, "(1+i) * %s" % m, "%s / 4" % m, "%s / 0" % m, "%s / i" % m, "%s / (2*i)" % m, "%s / (0-3*i)" % m, "%s / (1+i)" % m, "(%s / i) * i" % m, "%s * i" % m, "%s / (0*i)" % m,
                     "|%s|" % m, "determinant(%s)" % m, "inverse(%s)" % m, "%s * inverse(%s)" % (m, m), "inverse(%s) * %s" % (m, m),
                     "%s + %s" % (m, m), "%s - %s" % (m, m), "%s ^ 2" % m, "2 / %s" % m, "%s %% 2" % m, "%s!" % m]
     # scale classes: "refused exactly when the determinant is zero" must not depend on magnitude
